@@ -195,9 +195,12 @@ KINDS = ["datasource", "text_file", "command", "container_command", "container_f
 SAVE_AS = [None, "dir/", "name"]
 
 
-def make_provider(kind, lines, save_as):
+DS_PATHS = ["rel/ds_file", "/etc/cloud/cloud.cfg", "//double/slash", "plain"]
+
+
+def make_provider(kind, lines, save_as, ds_path="rel/ds_file"):
     if kind == "datasource":
-        return SF.DatasourceProvider(list(lines), "rel/ds_file", save_as=save_as)
+        return SF.DatasourceProvider(list(lines), ds_path, save_as=save_as)
     cls = {"text_file": SF.TextFileProvider, "command": SF.CommandOutputProvider, "container_command": SF.ContainerCommandProvider,
            "container_file": SF.ContainerFileProvider}[kind]
     p = object.__new__(cls)
@@ -211,11 +214,11 @@ def make_provider(kind, lines, save_as):
     return p
 
 
-def roundtrip(kind, lines, save_as):
+def roundtrip(kind, lines, save_as, ds_path="rel/ds_file"):
     """write + serialize with the registered serializer, then deserialize + load; returns (meta dict, loaded provider, loaded lines)"""
     fs = MemFS()
     with Patched(fs):
-        prov = make_provider(kind, lines, save_as)
+        prov = make_provider(kind, lines, save_as, ds_path)
         doc = serde.serialize(prov, root="/out/data")
         # the document goes through JSON in the real archive
         doc = json.loads(json.dumps(doc))
@@ -253,11 +256,14 @@ def make_content(nlines, maxlen):
         save_as = SAVE_AS[en.choice("save_as", len(SAVE_AS))] if kind in ("datasource", "text_file", "command") else None
         n = 1 + en.choice("n", nlines)
         lines = [sstr.fresh_str_upto(en, "l%d" % i, maxlen, LINE_ALPHA) for i in range(n)]
-        case = lambda mv: {"kind": "content", "provider": kind, "save_as": save_as, "lines": [mv.str(x) for x in lines]}  # noqa
+        ds_path = DS_PATHS[en.choice("ds_path", len(DS_PATHS))] if kind == "datasource" else "rel/ds_file"     # datasources name their result themselves
+        case = lambda mv: {"kind": "content", "provider": kind, "save_as": save_as, "lines": [mv.str(x) for x in lines], "ds_path": ds_path}  # noqa
         en.note_sample(case)
         if all(len(x) == 0 for x in lines):
             raise core.Abort()        # an all-empty spec is not persisted at all (C10)
-        prov, doc, back, content, fs = roundtrip(kind, lines, save_as)
+        prov, doc, back, content, fs = roundtrip(kind, lines, save_as, ds_path)
+        outside_ = [p_ for p_ in fs.files if not p_.startswith("/out/data/")]
+        en.must_hold(not outside_, "content-roundtrip", case, detail="the content was written to %s, outside the data directory of the archive" % outside_)
         eqs = []
 
         def eq(a, b):
@@ -631,12 +637,17 @@ def obligations(tier):
 def _native(case):
     if case["kind"] == "content":
         lines = case["lines"]
-        prov, doc, back, content, fs = roundtrip(case["provider"], lines, case["save_as"])
+        dsp = case.get("ds_path", "rel/ds_file")
+        try:
+            prov, doc, back, content, fs = roundtrip(case["provider"], lines, case["save_as"], dsp)
+        except Exception as ex:  # noqa
+            return ["persisting and loading %r (%s) raised %r" % (dsp, case["provider"], ex)]
         bad = judge_roundtrip(prov, doc, back, content, lines, lambda a, b: a == b)
+        bad += ["the content was written to %s, outside the data directory" % p_ for p_ in fs.files if not p_.startswith("/out/data/")]
         # and once against the real file system
         root = tempfile.mkdtemp(prefix="c11n_")
         try:
-            prov = make_provider(case["provider"], lines, case["save_as"])
+            prov = make_provider(case["provider"], lines, case["save_as"], dsp)
             doc = json.loads(json.dumps(serde.serialize(prov, root=os.path.join(root, "data"))))
             back = serde.deserialize(doc, root=os.path.join(root, "data"), ctx=None, ds=None)
             real = list(back.content)
